@@ -1,7 +1,7 @@
 #!/bin/bash
 # Development aid: which lines of the library do the rapidcheck harnesses reach?
 #   tools/coverage.sh [cases-per-target]      -> .build/coverage/report.txt (per-file) and uncovered.txt (functions never entered)
-# Every non-scheduler rapidcheck target is rebuilt in the "cov" flavour (clang source-based coverage, no sanitizers),
+# Every rapidcheck target is rebuilt in the "cov" (or "cov-sched") flavour (clang source-based coverage, no sanitizers),
 # run once with a small case count, the profiles are merged and reported for the library sources.
 set -e
 cd "$(dirname "$0")/.."
@@ -14,9 +14,9 @@ import build, targets as T
 n = int(sys.argv[1])
 bins = []
 for name, t in sorted(T.TARGETS.items()):
-    if t.get('kind', 'rc') != 'rc' or t.get('wrap'):
+    if t.get('kind', 'rc') != 'rc':
         continue
-    t2 = dict(t); t2['flavour'] = 'cov'; t2['name'] = name + '_cov'
+    t2 = dict(t); t2['flavour'] = 'cov-sched' if t.get('wrap') else 'cov'; t2['name'] = name + '_cov'
     try:
         b = build.build_target(t2)
     except SystemExit as e:
